@@ -557,7 +557,11 @@ class ConcreteParser(ParserInterp):
                     names = list(ast.literal_eval(fields.args[1]))
                 except Exception:
                     pass
-            return Obj('PathComponent', dict(zip(names, args)))
+            vals = dict(zip(names, args))
+            vals.update((k, v) for k, v in kwargs.items() if k in names)
+            if len(vals) != len(names):
+                raise AnalysisError('PathComponent(...) built with %d of its %d fields' % (len(vals), len(names)))
+            return Obj('PathComponent', vals)
         return ParserInterp.construct(self, cname, args, kwargs, node, frame)
 
 
